@@ -131,6 +131,7 @@ pub fn c09(ctx: &mut Ctx, tier: &str, r: &mut Rng, js: &[Value], reqs: &[String]
     for c in cases_from(js, reqs) {
         if matches!(c.p.extreme_latitude_method, ExtremeLatitudeMethod::NearestGoodDayAllPrayersAlways | ExtremeLatitudeMethod::NearestGoodDayFajrIshaInvalid)
             && f64::from(c.l.coords.latitude).abs() <= 64.
+            && named_like(&c, false)
         {
             let c2 = c.with(|p| p.round_seconds = RoundSeconds::None);
             one(ctx, &c2);
